@@ -287,6 +287,10 @@ class load(DataStreamProcessor):
             if self.limit_rows:
                 it = self.limiter(it)
             yield it
+        if isinstance(self.load_source, tuple):
+            # ask the source for the resource after its last one, so that whatever it does at the
+            # end of its stream (finalising a dump, a finalizer, failing) happens - or fails - here
+            collections.deque(self.iterators, maxlen=0)
 
     @staticmethod
     def rename_duplicate_headers(duplicate_headers, case_sensitive=True, deduplicate_format=' (%s)'):
